@@ -102,7 +102,7 @@ std::string phrase_nfkd(const AbsSeed& s, int lang, unsigned coin, unsigned idx_
 std::string phrase_out(const AbsSeed& s, int lang, unsigned coin);   // as polyseed_encode must write it
 
 int match_token(const Lang& L, const std::string& tok);    // index, -1 none, -2 ambiguous
-struct Decoded { int status; int lang; AbsSeed seed; unsigned idx[16]; bool have_idx; };
+struct Decoded { int status; int lang; AbsSeed seed; unsigned idx[16]; bool have_idx; std::vector<std::vector<unsigned>> partial; /* leading tokens a language recognised although it does not recognise all */ };
 // lang<0: automatic detection. Status is the pre-allocation, pre-feature-gate verdict.
 Decoded decode(const std::string& phrase, unsigned coin, int lang);
 
